@@ -27,7 +27,7 @@ REQUIRED_MONITORS = ["tracked:bit-compared", "metrics:nodes-compared-fwd", "metr
 REQUIRED_REACH = {"transforms/_track_scales.py": ["Metrics.from_tensor", "ScaleTrackingAutogradFunction.forward", "ScaleTrackingAutogradFunction.backward",
                                                   "ScaleTrackingInterpreter.run_node", "ScaleTrackingBackend.__call__", "track_scales", "_get_tracking_meta"],
                   "utils.py": ["ScaleTracker.forward", "ScaleTracker.backward", "ScaleTrackingInterpreter.run_node", "_record_scales", "analyse_module"]}
-MIN_NONTRIVIAL = {"quick": 90, "thorough": 2000}
+MIN_NONTRIVIAL = {"quick": 90, "thorough": 4000}
 FORMS = ["embedding", "nn_gelu", "conv1d", "bias_kw"]
 
 
